@@ -82,14 +82,14 @@ def handle : Handler := fun j => do
     pure (Json.mkObj [("kinds", Json.arr (lines.map fun l =>
       if isBlankOrComment l then Json.str "blank"
       else match searchRex (stripComment l) with
-        | some m => Json.mkObj [("optional", m.optional), ("args", ofStr m.args), ("len", Json.num m.len)]
+        | some m => Json.mkObj [("optional", m.optional), ("args", ofStr m.args), ("len", Json.num m.len), ("unsetup", m.unsetup)]
         | none => Json.str "other").toArray)])
   | "re" =>
     -- the hand-translated regular expressions and string helpers, one answer per line, for the differential test against `re`
     pure (Json.mkObj [("res", Json.arr (lines.map fun l =>
       Json.mkObj [("blank", isBlankOrComment l), ("nocomment", ofStr (stripComment l)),
         ("rex", match searchRex l with
-          | some m => Json.mkObj [("optional", m.optional), ("args", ofStr m.args), ("len", Json.num m.len)]
+          | some m => Json.mkObj [("optional", m.optional), ("args", ofStr m.args), ("len", Json.num m.len), ("unsetup", m.unsetup)]
           | none => Json.null),
         ("preExact", preExactRe l), ("openBrace", endsWithOpenBrace l), ("closeBrace", isCloseBrace l),
         ("split", ofStrs (splitWs l)), ("strip", ofStr (strip l)), ("relop", hasRelop l),
